@@ -150,11 +150,11 @@ fn session(sc: Value, log: Arc<Mutex<Vec<Value>>>) {
 			"Proc" => {
 				let n = gi(step, "n").max(1) as usize;
 				let mut out = vec![Frame::from_mono(f32::NAN); n];
+				ev(json!({"a": "proc", "n": n}));
 				if let Err(msg) = guarded(|| sound.process(&mut out, dt, &info)) {
 					ev(json!({"a": "panic", "who": "process", "msg": msg}));
 					return;
 				}
-				ev(json!({"a": "proc", "n": n}));
 				for f in &out {
 					let (v, mut x) = scaled(f.left as f64, 256.0);
 					if f.left.to_bits() != f.right.to_bits() && !(f.left == 0.0 && f.right == 0.0) {
